@@ -5,7 +5,8 @@ a served tree is attributable to exactly one text.  Broken variants have a synta
 construction (the engines cross-check this against an uncached parse)."""
 
 TEMPLATES = [
-    """model M{id}
+    """model M{id} "model {id},
+  described on two lines"
   parameter Real k = {a};
   Real x(start = {b});
   Real y;
@@ -27,7 +28,8 @@ end M{id};
     p.v - n.v = r * p.i;
     p.i + n.i = 0;
   end R{id};
-  model Top{id}
+  model Top{id} "top
+    of {id}"
     R{id} r1(r = {c}), r2;
   equation
     connect(r1.n, r2.p);
@@ -59,7 +61,8 @@ equation
   s = sin(time) * {a};
 end F{id};
 """,
-    """model D{id} "comment {id}"
+    """model D{id} "comment {id}
+  continued on a second line"
   type T{id} = Real(min = {a}, max = {b}0);
   T{id} h(start = {c}, fixed = true);
   discrete Integer n;
@@ -107,6 +110,24 @@ def whitespace_variant(text, rng):
     return "\n".join(lines).replace("  ", "   ", 1)
 
 
+VARIANTS = ["comment", "crlf", "trailing_space", "tabs", "final_newline"]
+
+
+def text_variant(text, rng, how=None):
+    """A different text (different hash) that a careless normalisation of the cache key might identify with the
+    original; whether the tree differs depends on the text (e.g. CRLF inside a multi-line string does change it)."""
+    how = how or VARIANTS[rng.randrange(len(VARIANTS))]
+    if how == "comment":
+        return whitespace_variant(text, rng)
+    if how == "crlf":
+        return text.replace("\n", "\r\n")
+    if how == "trailing_space":
+        return text.replace(";\n", ";  \n", 2)
+    if how == "tabs":
+        return text.replace("  ", "\t")
+    return text + "\n"
+
+
 def make_pool(rng, n_valid=5, n_broken=2, n_ws=1):
     """Returns list of dicts {text, broken, base (index of the text it is a variant of or None)}."""
     pool = []
@@ -114,7 +135,7 @@ def make_pool(rng, n_valid=5, n_broken=2, n_ws=1):
         pool.append({"text": make_valid(rng, k if k < len(TEMPLATES) else None), "broken": False, "base": None})
     for k in range(n_ws):
         b = rng.randrange(n_valid)
-        pool.append({"text": whitespace_variant(pool[b]["text"], rng), "broken": False, "base": b})
+        pool.append({"text": text_variant(pool[b]["text"], rng), "broken": False, "base": b})
     for k in range(n_broken):
         b = rng.randrange(n_valid)
         pool.append({"text": make_broken(pool[b]["text"], BREAKERS[rng.randrange(len(BREAKERS))]), "broken": True,
